@@ -123,6 +123,17 @@ def gen_shape(rng, shape):
         return [("S", ["X"], {}), ("X", ["L", "R"], {"conditional": True}), ("L", ["T"], {"probability": p}),
                 ("R", ["T", "Rout"], {"probability": round(1.0 - p, 2)}), ("Rout", [], {}),
                 ("T", ["Z"], {"terminal": True}), ("Z", [], {})]
+    if shape == "cond_fork":
+        # a conditional WITHOUT a join: each branch ends in a sink of its own: S -> X -> {L -> Lz, R1 -> R2 -> Rz}
+        p = rng.choice([0.5, 0.25, 0.75, 1.0])
+        return [("S", ["X"], {}), ("X", ["L", "R1"], {"conditional": True}),
+                ("L", ["Lz"], {"probability": p}), ("Lz", [], {}),
+                ("R1", ["R2"], {"probability": round(1.0 - p, 2)}), ("R2", ["Rz"], {}), ("Rz", [], {})]
+    if shape == "cond_root_fork":
+        # the conditional is the source and nothing joins: X -> {L, R -> Rz}
+        p = rng.choice([0.5, 0.25, 0.75])
+        return [("X", ["L", "R"], {"conditional": True}), ("L", [], {"probability": p}),
+                ("R", ["Rz"], {"probability": round(1.0 - p, 2)}), ("Rz", [], {})]
     if shape == "cond_nested":
         return [("X", ["L", "Y"], {"conditional": True}), ("L", ["T"], {"probability": 0.5}),
                 ("Y", ["M", "N"], {"conditional": True, "probability": 0.5}),
@@ -200,6 +211,37 @@ def gen_world(rng, policy=None, allow_zero_runtime=False, closed_loop=False, con
             flags["min_deadline"] = rng.choice([300, 1000])
     return {"workload": {"graphs": graphs, "profiles": profiles}, "workers": pools, "flags": flags,
             "policy": policy}
+
+
+def gen_branch_world(rng):
+    """a feasible world under a work-conserving policy (EDF / FIFO / LSF, nothing cancels, generous timeout) in which at least
+    one job graph is a conditional WITHOUT a join (every branch ends in its own sink) or with a side output inside a branch.
+    Such graphs match the input signature of known finding F42 when a policy plans ahead; under policies that place ready
+    tasks `now` nothing is ever placed early, so the liveness clause of C05 can be judged on them."""
+    w = gen_world(rng, policy=rng.choice(["EDF", "FIFO", "LSF"]), conditionals=False)
+    g0 = w["workload"]["graphs"][0]
+    pools = w["workers"]
+    names = sorted({r["name"].partition(":")[0] for p in pools for wk in p["workers"] for r in wk["resources"]})
+    caps = capacity(pools)
+    nodes = []
+    for (n, children, attrs) in gen_shape(rng, rng.choice(["cond_fork", "cond_fork", "cond_root_fork", "cond_sink"])):
+        pname = "prof_B_%s" % n
+        w["workload"]["profiles"].append(gen_profile(rng, pname, names, caps, RUNTIMES, force_fit=True))
+        node = {"name": n, "work_profile": pname}
+        if children:
+            node["children"] = children
+        node.update(attrs)
+        nodes.append(node)
+    g0["graph"] = nodes
+    if g0.get("release_policy") == "periodic":
+        g0.update({"release_policy": "fixed", "period": 10, "invocations": 2})
+    f = w["flags"]
+    f.update({"loop_timeout": 10 ** 6, "drop_skipped_tasks": False, "enforce_deadlines": False,
+              "resolve_conditionals_at_submission": rng.random() < 0.3})
+    for g in w["workload"]["graphs"]:
+        if g.get("release_policy") == "periodic":
+            g.update({"release_policy": "fixed", "period": g.get("period", 10), "invocations": 2})
+    return w
 
 
 def gen_fuzz_world(rng):
